@@ -7,6 +7,8 @@
 #include <libast_internal.h>
 #include <errno.h>
 #include "common.h"
+extern char verif_peer_path[8];
+extern int verif_peer_len;
 #include "env_io.h"
 
 extern int verif_fd_open[], verif_fd_next;
@@ -162,6 +164,16 @@ h_accept(int order)
     check_consistent(a);
     if (a) {
         CHECK("the accepted socket has its own open descriptor", a->fd >= 0 && a->fd != l->fd && verif_fd_open[a->fd]);
+        if (!SPIF_URL_ISNULL(a->remote_url) && verif_peer_len >= 0) {
+            spif_str_t pth = spif_url_get_path(a->remote_url);
+            int i;
+
+            /* the peer address the kernel reported, and nothing from the rest of the address block */
+            CHECK("the accepted socket's peer path has the length the kernel reported", SPIF_STR_ISNULL(pth) ? verif_peer_len == 0 : (int) spif_str_get_len(pth) == verif_peer_len);
+            for (i = 0; !SPIF_STR_ISNULL(pth) && i < verif_peer_len && i < (int) spif_str_get_len(pth); i++) {
+                CHECK("the accepted socket's peer path is the one the kernel reported", SPIF_STR_STR(pth)[i] == verif_peer_path[i]);
+            }
+        }
     }
     if (order == 0) {
         spif_socket_del(l);
